@@ -169,6 +169,17 @@ func (e *Engine) verifyFunc(fn *ssa.Function, fc *FuncContract) (rep *FuncReport
 	fr.entrySt = st.Clone()
 	x.collectInputs(fr, st)
 	envPre := &SpecEnv{x: x, vars: fr.argVars, st: st, old: st, fn: fn}
+	if fn.Pkg != nil && !fc.PkgInit {
+		for _, inv := range e.pkgInvs[fn.Pkg.Pkg.Path()] {
+			t, err := envPre.EvalBool(inv.E)
+			if err != nil {
+				fr.contractError(inv, err)
+				continue
+			}
+			c.Assume(t)
+			c.Trust("package invariant (established by init, assumed preserved): " + inv.Text)
+		}
+	}
 	for _, rq := range fc.Requires {
 		t, err := envPre.EvalBool(rq.E)
 		if err != nil {
@@ -200,7 +211,7 @@ func (e *Engine) verifyFunc(fn *ssa.Function, fc *FuncContract) (rep *FuncReport
 			}
 		}
 		bindResults(vars, fn.Signature, fc, e, res)
-		env := &SpecEnv{x: x, vars: vars, st: r.st, old: fr.entrySt, fn: fn}
+		env := &SpecEnv{x: x, vars: vars, st: r.st, old: fr.entrySt, fn: fn, frame: fr}
 		fr.reach = r.cond
 		fr.cur = r.st
 		ce.outVals = r.vals
@@ -285,6 +296,14 @@ func (x *Exec) checkFrame(fr *Frame, fc *FuncContract, r RetEdge, envPre *SpecEn
 						key, _ := e.heapKey("M", u.Elem(), j)
 						allowRows[key] = append(allowRows[key], v.C[0])
 					}
+				case *types.Interface:
+					if isStreamIface(u) && e.bufferType() != nil {
+						bt := e.bufferType()
+						for j := range e.layout(bt) {
+							key, _ := e.heapKey("H", bt, j)
+							allowed[key] = append(allowed[key], v.C[1])
+						}
+					}
 				}
 			}
 		}()
@@ -308,7 +327,7 @@ func (x *Exec) checkFrame(fr *Frame, fc *FuncContract, r RetEdge, envPre *SpecEn
 		for _, a := range allowRows[key] {
 			excl = append(excl, Neq(rv, a))
 		}
-		goal := Forall([]Term{rv}, Implies(And(append([]Term{Le(IntLit(0), rv), Lt(rv, entry.alloc)}, excl...)...), Eq(Select(now, rv), Select(was, rv))))
+		goal := Forall([]Term{rv}, Implies(And(append([]Term{Lt(IntLit(0), rv), Lt(rv, entry.alloc)}, excl...)...), Eq(Select(now, rv), Select(was, rv))))
 		fr.obligation("assigns", "unchanged "+shortKey(key), r.cond, goal, "frame: only declared locations are written")
 	}
 }
